@@ -300,11 +300,27 @@ def _abs_moves(case, kinds):
     return out
 
 
-def _paths_related_to_moves(viol, moves):
+def _rename_closure(case, names):
+    """all root-relative names the objects in `names` have, had or get through user renames on either side"""
+    out = set(names)
+    rn = [(it[3], it[4]) for it in case.get("plan", []) if it and it[0] == "U" and it[2] in ("rename", "rename_dir")]
+    for _ in range(3):
+        for src, dst in rn:
+            for n in list(out):
+                if n == src or n.startswith(src + "/"):
+                    out.add(dst + n[len(src):])
+                if n == dst or n.startswith(dst + "/"):
+                    out.add(src + n[len(dst):])
+    return out
+
+
+def _paths_related_to_moves(viol, moves, case=None):
     paths = _diff_paths(viol)
     if not paths:
         return False
     rel = [m[3] for m in moves] + [m[4] for m in moves]
+    if case is not None:
+        rel = list(_rename_closure(case, [m[3] for m in moves])) + [m[4] for m in moves]
     return all(any(_related(_unconf(p), q) for q in rel) for p in paths)
 
 
@@ -317,7 +333,56 @@ def m_boundary_folder_move(f, case, viol):
         return False
     if viol["cls"] == "nonquiescent":
         return True
-    return _paths_related_to_moves(viol, moves)
+    return _paths_related_to_moves(viol, moves, case)
+
+
+def _aliases(case, side, path, upto):
+    """earlier names of the object that is at `path` (root-relative) on `side` when plan item `upto` runs: follow the renames on
+    that side backwards (both 'U' renames, relative, and 'A' renames inside the root)"""
+    roots = tuple(case.get("cfg", {}).get("roots", ("/local", "/remote")))
+    names = [path]
+    cur = path
+    for it in reversed(case.get("plan", [])[:upto]):
+        if not it or it[0] not in ("U", "A") or it[1] != side or it[2] not in ("rename", "rename_dir"):
+            continue
+        src, dst = it[3], it[4]
+        if it[0] == "A":
+            r = roots[side]
+            if not (src.startswith(r + "/") and dst.startswith(r + "/")):
+                continue
+            src, dst = src[len(r):], dst[len(r):]
+        if cur == dst or cur.startswith(dst + "/"):
+            cur = src + cur[len(dst):]
+            names.append(cur)
+    return names
+
+
+def m_declined_conflict(f, case, viol):
+    """mechanism (C12): the application starts declining a subtree that already holds a synchronised file, and that file is then
+    edited on BOTH sides: the hash-conflict path (split / rename to '.conflicted') does not consult translate(), so one copy
+    inside the declined subtree is renamed.  Every differing path must lie under the declined subtree and the plan must contain
+    writes to one path under it from both sides after the decline."""
+    plan = case.get("plan", [])
+    try:
+        k = next(i for i, it in enumerate(plan) if it and it[0] == "X" and it[1] == "decline")
+    except StopIteration:
+        return False
+    dec = plan[k][2]
+    roots = tuple(case.get("cfg", {}).get("roots", ("/local", "/remote")))
+    writers = {}
+    for it in plan[k + 1:]:
+        if it and it[0] == "U" and it[2] in ("write", "create") and (it[3] == dec or it[3].startswith(dec + "/")):
+            writers.setdefault(it[3], set()).add(it[1])
+    both = [p for p, s in writers.items() if len(s) == 2]
+    if not both:
+        return False
+    paths = []
+    for p in _diff_paths(viol):
+        for r in roots:
+            if p.startswith(r + "/"):
+                p = p[len(r):]
+        paths.append(_unconf(p))
+    return bool(paths) and all(any(_related(p, q) for q in both) for p in paths)
 
 
 def m_moved_out_race(f, case, viol):
@@ -340,16 +405,16 @@ def m_moved_out_race(f, case, viol):
             if u[0] == "A":     # account paths of the peer: keep those inside its root, relative to it
                 r = roots[u[1]]
                 qs = [q[len(r):] for q in qs if q.startswith(r + "/")]
-            if any(_related(q, m[3]) for q in qs):
+            if any(_related(q, a) for q in qs for a in _aliases(case, m[1], m[3], m[0])):
                 ok.append(m)
     if not ok:
         return False
     if viol["cls"] == "nonquiescent":
         return True
-    return _paths_related_to_moves(viol, ok)
+    return _paths_related_to_moves(viol, ok, case)
 
 
-MATCHERS = {"mock_path_ci": m_mock_path_ci, "request_stale_entry": m_request_stale_entry, "late_parent_event": m_late_parent_event, "crash_dup_entry": m_crash_dup_entry, "boundary_folder_move": m_boundary_folder_move, "moved_out_race": m_moved_out_race, "crash_rename_over": m_crash_rename_over, "event_exc": m_event_exc, "half_transfer": m_half_transfer, "history": m_history, "rename_race": m_rename_race, "dirdelete_race": m_dirdelete_race}
+MATCHERS = {"declined_conflict": m_declined_conflict, "mock_path_ci": m_mock_path_ci, "request_stale_entry": m_request_stale_entry, "late_parent_event": m_late_parent_event, "crash_dup_entry": m_crash_dup_entry, "boundary_folder_move": m_boundary_folder_move, "moved_out_race": m_moved_out_race, "crash_rename_over": m_crash_rename_over, "event_exc": m_event_exc, "half_transfer": m_half_transfer, "history": m_history, "rename_race": m_rename_race, "dirdelete_race": m_dirdelete_race}
 
 
 def match_one(f, case, viol):
